@@ -7,6 +7,7 @@ use crate::prng::Rng;
 use crate::subjects::{catalogue, Subject};
 
 pub mod alloc;
+pub mod append;
 pub mod bytesgen;
 pub mod corrupt;
 pub mod depth;
@@ -19,7 +20,7 @@ pub mod stacks;
 pub mod wire;
 
 pub fn all() -> Vec<&'static dyn Scenario> {
-    vec![&wire::Wire, &corrupt::Corrupt, &corrupt::CorruptSweep, &stacks::Stacks, &stacks::Count, &skip::Skip, &frames::Frames, &sinks::Sinks, &alloc::Alloc, &alloc::AllocMass, &ledger::LedgerScn, &depth::Depth, &depth::DeepStack, &memlimit::MemLimit]
+    vec![&wire::Wire, &corrupt::Corrupt, &corrupt::CorruptSweep, &stacks::Stacks, &stacks::Count, &skip::Skip, &frames::Frames, &sinks::Sinks, &alloc::Alloc, &alloc::AllocMass, &ledger::LedgerScn, &depth::Depth, &depth::DeepStack, &memlimit::MemLimit, &append::Append]
 }
 
 pub fn by_name(n: &str) -> Option<&'static dyn Scenario> {
